@@ -75,7 +75,7 @@ func (r *Rng) Shuffle(n int, swap func(i, j int)) {
 // UUID returns a canonical 36-character UUID (version 4 layout) drawn from the stream.
 func (r *Rng) UUID() string {
 	a, b := r.U64(), r.U64()
-	a = (a &^ 0xf000) | 0x4000                   // version nibble inside time_hi
+	a = (a &^ 0xf000) | 0x4000                     // version nibble inside time_hi
 	b = (b &^ (0xc0 << 56)) | (uint64(0x80) << 56) // variant
 	s := fmt.Sprintf("%08x-%04x-%04x-%04x-%012x", uint32(a>>32), uint16(a>>16), uint16(a), uint16(b>>48), b&0xffffffffffff)
 	return s
